@@ -209,14 +209,14 @@ where
     /// - If any input sample name is not in the array.
     /// - If no samples or all samples are being removed.
     pub fn delete_samples(&mut self, del_names: &[&str]) {
-        if del_names.is_empty() || del_names.len() == self.nsamples() {
-            panic!("Invalid number of samples to remove")
-        }
-
         // Find position of names in the array rows
         let mut del_name_set = HashSet::new();
         for name in del_names {
             del_name_set.insert(name.to_string());
+        }
+        // A name given more than once counts once
+        if del_name_set.is_empty() || del_name_set.len() == self.nsamples() {
+            panic!("Invalid number of samples to remove")
         }
         let mut idx_list = Vec::new();
         let mut new_names = Vec::new();
